@@ -1,5 +1,167 @@
-(* STUB: Spec layer for rimt -- to be written *)
-From Coq Require Import NArith List.
+(* Spec layer for the RIMT (RISC-V IO Mapping Table), written from SPEC_NOTES.md A.0 / A.2 (layout pinned by the crate's golden
+   tests; table revision 1 and creator id are crate-defined).
+   Case vocabulary (shared with Impl/Rimt.v and harness/src/t_rimt.rs), component 18:
+     ctor  (oem6 tbl8 orev)
+     ops   (1 id base? pci? prox? wires?)        add_iommu(Iommu::new(id, base, pci, prox, wires)) -> IommuOffset (reported as EvNum)
+           (2 id segment ats pri maps?)          add_pcie_root_complex(PcieRootComplex::new(..))    -> reports 0
+           (3 id name maps?)                     add_platform(Platform::new(id, name, maps))        -> reports 0
+     Option arguments:  () = None, (v) = Some v
+       base?  = () | (u64)            prox? = () | (u32)
+       pci?   = () | ((segment bus device function))          PciDevice::new (asserts device < 32, function < 8)
+       wires? = () | ((wire ...))     wire = (number level_triggered polarity_high aplic_id), booleans 0 / 1
+       maps?  = () | ((map ...))      map  = (source_base dest_base count (104 k) ats pri rciep), booleans 0 / 1;
+                                      (104 k) = the IommuOffset returned by the k-th real op (must be an add_iommu)
+     name = list of bytes (ASCII), without the terminating NUL
+   In this Spec a handle reference (104 k) is the offset at which the k-th added device starts in the reference image;
+   it is in the domain only if that device is an IOMMU (type 0). *)
+From Coq Require Import NArith List Bool Arith.
 From ACPI Require Import Lib.Bytes Lib.Sx Spec.Layout.
 Import ListNotations.
-Definition rimt_spec : tspec := null_spec.
+Open Scope N_scope.
+
+(* ---- helpers shared with Spec/ViotS.v and Spec/CedtS.v ---- *)
+Definition sp_bit (v k : N) : N := if v =? 0 then 0 else k.           (* a boolean argument contributes bit value k *)
+
+Definition sp_opt (x : sx) : option (option N) :=
+  match x with SL [] => Some None | SL [SA v] => Some (Some v) | _ => None end.
+
+Definition sp_or0 (o : option N) : N := match o with Some v => v | None => 0 end.
+Definition sp_some (o : option N) : N := match o with Some _ => 1 | None => 0 end.
+
+(* PCI BDF (A.0): bus<<8 | device<<3 | function, defined for bus < 256, device < 32, function < 8 *)
+Definition sp_bdf (bus dev fn : N) : option N :=
+  if (bus <? 256) && (dev <? 32) && (fn <? 8) then Some (bus * 256 + dev * 8 + fn) else None.
+
+Fixpoint sp_all {A} (f : sx -> option A) (l : list sx) (racc : list A) : option (list A) :=
+  match l with
+  | [] => Some (frev racc)
+  | x :: r => match f x with Some a => sp_all f r (a :: racc) | None => None end
+  end.
+
+(* the start offsets (and type codes) of the entries added so far, most recent first; [n] = their number *)
+Definition sp_starts := list (N * N).
+
+Definition sp_lookup (n : nat) (rs : sp_starts) (x : sx) : option (N * N) :=
+  match x with
+  | SL [SA 104; SA k] => if Nat.ltb (N.to_nat k) n then nth_error rs (n - 1 - N.to_nat k) else None
+  | _ => None
+  end.
+
+(* entries in insertion order, each laid out knowing where the earlier ones start *)
+Fixpoint sp_entries (entry : nat -> sp_starts -> sx -> option (list N)) (ops : list sx) (off : N) (n : nat) (rs : sp_starts)
+         (racc : list (list N)) : option (list (list N)) :=
+  match ops with
+  | [] => Some (frev racc)
+  | o :: r =>
+      match entry n rs o with
+      | Some e => sp_entries entry r (off + N.of_nat (length e)) (S n) ((off, nth 0 e 0) :: rs) (e :: racc)
+      | None => None
+      end
+  end.
+
+(* ---- RIMT ---- *)
+
+(* interrupt wire (8): 0+4 Number, 4+2 Flags (b0 level, b1 active high), 6+2 APLIC ID *)
+Definition rimt_wire_ref (w : sx) : option (list N) :=
+  match w with
+  | SL [SA num; SA lvl; SA pol; SA aplic] => lay 8 [L 0 4 num; L 4 2 (sp_bit lvl 1 + sp_bit pol 2); L 6 2 aplic]
+  | _ => None
+  end.
+
+(* ID mapping (20): 0+4 SourceBase, 4+4 DestBase, 8+4 Count, 12+4 DestIOMMUOffset (offset of a type-0 device),
+   16+4 Flags (b0 ATS, b1 PRI, b2 RCiEP) *)
+Definition rimt_map_ref (n : nat) (rs : sp_starts) (m : sx) : option (list N) :=
+  match m with
+  | SL [SA src; SA dst; SA cnt; href; SA ats; SA pri; SA rciep] =>
+      match sp_lookup n rs href with
+      | Some (off, 0) => lay 20 [L 0 4 src; L 4 4 dst; L 8 4 cnt; L 12 4 off; L 16 4 (sp_bit ats 1 + sp_bit pri 2 + sp_bit rciep 4)]
+      | _ => None
+      end
+  | _ => None
+  end.
+
+Definition rimt_opt_list (f : sx -> option (list N)) (x : sx) : option (list (list N)) :=
+  match x with
+  | SL [] => Some []
+  | SL [SL l] => sp_all f l []
+  | _ => None
+  end.
+
+Definition rimt_pci_ref (x : sx) : option (option (N * N)) :=
+  match x with
+  | SL [] => Some None
+  | SL [SL [SA seg; SA bus; SA dev; SA fn]] => match sp_bdf bus dev fn with Some b => Some (Some (seg, b)) | None => None end
+  | _ => None
+  end.
+
+(* a device whose length does not fit the 16-bit length field is outside the domain *)
+Definition rimt_fits (len : nat) (img : option (list N)) : option (list N) :=
+  if 65535 <? N.of_nat len then None else img.
+
+Definition rimt_entry_ref (n : nat) (rs : sp_starts) (o : sx) : option (list N) :=
+  match o with
+  | SL [SA 1; SA id; base; pci; prox; wires] =>
+      (* 0 IOMMU (32 + 8w): type, revision 1, length, id, 6+2 Model=0, 8+8 Base, 16+4 Flags (b0 PCI device, b1 proximity domain
+         valid), 20+2 Segment, 22+2 BDF, 24+4 ProximityDomain, 28+2 w, 30+2 WireArrayOffset=32, wires *)
+      match sp_opt base, rimt_pci_ref pci, sp_opt prox, rimt_opt_list rimt_wire_ref wires with
+      | Some b, Some p, Some px, Some ws =>
+          let w := length ws in
+          let len := (32 + 8 * w)%nat in
+          rimt_fits len
+            (option_map (fun h => h ++ concat ws)
+               (lay 32 [L 0 1 0; L 1 1 1; L 2 2 (N.of_nat len); L 4 2 id; L 6 2 0; L 8 8 (sp_or0 b);
+                        L 16 4 (match p with Some _ => 1 | None => 0 end + 2 * sp_some px);
+                        L 20 2 (match p with Some q => fst q | None => 0 end); L 22 2 (match p with Some q => snd q | None => 0 end);
+                        L 24 4 (sp_or0 px); L 28 2 (N.of_nat w); L 30 2 32]))
+      | _, _, _, _ => None
+      end
+  | SL [SA 2; SA id; SA seg; SA ats; SA pri; maps] =>
+      (* 1 PCIe RC (16 + 20m): 6+2 Segment, 8+4 Flags (b0 ATS, b1 PRI), 12+2 MappingOffset=16, 14+2 m, mappings *)
+      match rimt_opt_list (rimt_map_ref n rs) maps with
+      | Some ms =>
+          let m := length ms in
+          let len := (16 + 20 * m)%nat in
+          rimt_fits len
+            (option_map (fun h => h ++ concat ms)
+               (lay 16 [L 0 1 1; L 1 1 1; L 2 2 (N.of_nat len); L 4 2 id; L 6 2 seg; L 8 4 (sp_bit ats 1 + sp_bit pri 2);
+                        L 12 2 16; L 14 2 (N.of_nat m)]))
+      | None => None
+      end
+  | SL [SA 3; SA id; name; maps] =>
+      (* 2 Platform (12 + n+1 + 20m): 6+2 res, 8+2 MappingOffset = 12+n+1, 10+2 m, 12 name, NUL, mappings *)
+      match sx_bytes name, rimt_opt_list (rimt_map_ref n rs) maps with
+      | Some nm, Some ms =>
+          let m := length ms in
+          let k := length nm in
+          let len := (12 + k + 1 + 20 * m)%nat in
+          (* the name is a byte string: its bytes follow the 12 fixed bytes one by one, then the NUL *)
+          rimt_fits len
+            (option_map (fun h => h ++ map (fun b => b mod 256) nm ++ [0] ++ concat ms)
+               (lay 12 [L 0 1 2; L 1 1 1; L 2 2 (N.of_nat len); L 4 2 id; L 6 2 0; L 8 2 (N.of_nat (12 + k + 1));
+                        L 10 2 (N.of_nat m)]))
+      | _, _ => None
+      end
+  | _ => None
+  end.
+
+Definition rimt_entries_ref (ops : list sx) : option (list (list N)) := sp_entries rimt_entry_ref ops 48 0 [] [].
+
+(* 36+4 DeviceCount, 40+4 DeviceArrayOffset=48, 44+4 res; devices from 48 *)
+Definition rimt_image (ctor : sx) (ops : list sx) : option (list N) :=
+  match ctor with
+  | SL [o; t; r] =>
+      match sx_hdr_args o t r, rimt_entries_ref ops with
+      | Some h, Some es =>
+          Some (ref_table [82; 73; 77; 84] 1 h (le 4 (N.of_nat (length es)) ++ le 4 48 ++ le 4 0 ++ concat es))
+      | _, _ => None
+      end
+  | _ => None
+  end.
+
+Definition rimt_spec : tspec := {|
+  ts_image := rimt_image;
+  ts_walk := Some (48%nat, H_u8_x_u16);
+  ts_entries := fun _ ops => option_map (map (fun e => (nth 0 e 0, length e))) (rimt_entries_ref ops);
+  ts_counts := fun n => [(36%nat, 4%nat, N.of_nat n); (40%nat, 4%nat, 48)];
+  ts_returns := fun o => match o with SL (SA 1 :: _) => true | _ => false end
+|}.
